@@ -193,7 +193,19 @@ BOUNDS = ["nb", "mb"]
 
 
 def gen_guard(tape):
-    k = tape.weighted([5, 0.7, 3, 2, 1.5, 0.5, 0.5, 1.0, 0.6], "guard")
+    k = tape.weighted([5, 0.7, 3, 2, 1.5, 0.5, 0.5, 1.0, 0.6, 0.8, 1.2], "guard")
+    if k == 9:
+        # a guard over a name that is also (one of) the statement's own loop variable(s): it is evaluated
+        # once, before the loops, with the value the name has outside them
+        from pymbolic.primitives import Comparison
+        return Comparison(Variable(["i", "j"][tape.draw(2, "gl")]), [">", "<=", "=="][tape.draw(3, "glop")],
+                          [1, 0, 2][tape.draw(3, "glc")])
+    if k == 10:
+        # comparisons with constants; few distinct forms, so neighbours often differ in the constant only
+        # (and -1 / -2 have the same hash)
+        from pymbolic.primitives import Comparison
+        return Comparison(Variable(["e0", "e1"][tape.draw(2, "kl")]), ["<", ">="][tape.draw(2, "kop")],
+                          [-1, -2][tape.draw(2, "kc")])
     if k == 8:
         # negations of a literal (what is left when a flag in a guard is replaced by a constant)
         g = [True, False][tape.draw(2, "neglit")]
@@ -432,8 +444,10 @@ def run_c05(ctx):
                 env.setdefault(f, bool(tape.draw(2, "fv")))
             env["nb"] = tape.draw(3, "nb")
             env["mb"] = tape.draw(4, "mb")
-            env["e0"] = [0.0, 1.0, float("nan")][tape.draw(3, "e0")]
-            env["e1"] = [1.0, 0.0, float("nan")][tape.draw(3, "e1")]
+            env["e0"] = [0.0, 1.0, float("nan"), -1.5][tape.draw(4, "e0")]
+            env["e1"] = [1.0, 0.0, float("nan"), -1.5][tape.draw(4, "e1")]
+            env["i"] = [5, 0, 2][tape.draw(3, "outer_i")]
+            env["j"] = [1, 3][tape.draw(2, "outer_j")]
         trace = []
         execute(base_tree, env, trace, {})
         # L1/L2
